@@ -371,6 +371,8 @@ func quiescentRouter(lock bool, shape int) *Router {
 		opts = append(opts, mux.WithSLogRecovery(500, slog.New(slog.NewTextHandler(io.Discard, nil))))
 	case 5:
 		opts = append(opts, mux.WithStatusRecovery(500))
+	case 6: // CORS: one configuration object answers every request
+		opts = append(opts, mux.WithCORS([]string{"https://a", "https://b"}, []string{"Content-Type", "X-Tok"}, []string{"X-E"}, 600, true))
 	}
 	r := NewRouter(RouterCfg{Lock: lock}, opts...)
 	r.Handle("/u/{id}", hv.Route("hU"), nil, "GET")
@@ -398,7 +400,13 @@ func reqResult(o *hv.Obs) string {
 	if o.Paniced {
 		return fmt.Sprintf("PANIC(%v)", o.Panic)
 	}
-	return fmt.Sprintf("st=%d h=%s pat=%q entry=%s router=%q", o.Status, o.HID, o.Pattern, hv.ParamsString(o.Params), o.Router)
+	cors := ""
+	if o.Header != nil {
+		if v := o.Header.Values("Access-Control-Allow-Origin"); len(v) > 0 {
+			cors = fmt.Sprintf(" acao=%q allow-headers=%q", v, o.Header.Values("Access-Control-Allow-Headers"))
+		}
+	}
+	return fmt.Sprintf("st=%d h=%s pat=%q entry=%s router=%q%s", o.Status, o.HID, o.Pattern, hv.ParamsString(o.Params), o.Router, cors)
 }
 
 func c07cJob(raw json.RawMessage) (any, error) {
@@ -734,6 +742,17 @@ func init() {
 				citems = append(citems, c07cItem{Shape: shape, Lock: lock, Threads: [][]hv.Req{{boom}, {boom2}}, Bound: bc - 1},
 					c07cItem{Shape: shape, Lock: lock, Threads: [][]hv.Req{{boom}, {reqs[1]}}, Bound: bc - 1})
 			}
+			// shape 6: preflights with different requested-header lists (granted, refused) and origins at the same time
+			pf := func(origin, acrh string) hv.Req {
+				return hv.Req{Method: "OPTIONS", Path: "/u/1", Header: map[string]string{"Origin": origin, "Access-Control-Request-Method": "GET", "Access-Control-Request-Headers": acrh}}
+			}
+			cq := []hv.Req{pf("https://a", "content-type"), pf("https://a", "x-bad"), pf("https://b", "x-tok, content-type"), {Method: "GET", Path: "/u/2", Header: map[string]string{"Origin": "https://b"}}, pf("https://evil", "content-type")}
+			for i, a := range cq {
+				for _, b := range cq[i:] {
+					citems = append(citems, c07cItem{Shape: 6, Lock: lock, Threads: [][]hv.Req{{a}, {b}}, Bound: bc - 1})
+				}
+			}
+			citems = append(citems, c07cItem{Shape: 6, Lock: lock, Threads: [][]hv.Req{{cq[0], cq[1]}, {cq[1], cq[0]}}, Bound: bc - 1})
 			// shape 1: requests through the nodes whose children were removed / re-indexed
 			r1 := []hv.Req{{Method: "GET", Path: "/x/b"}, {Method: "GET", Path: "/x/9"}, {Method: "GET", Path: "/u/1/c"}, {Method: "GET", Path: "/u/2/b"}, {Method: "GET", Path: "/s"}, {Method: "GET", Path: "/x/a"}}
 			for i, a := range r1 {
